@@ -67,11 +67,12 @@ class Molecule(BigSMILESbase):
                     else:
                         other_bd = self._elements[-1].bond_descriptors[-1]
                     if len(pre_stochastic.bond_descriptors) > 0:
-                        found_compatible = False
-                        for bd in pre_stochastic.bond_descriptors[0]:
-                            if bd.is_compatible(other_bd):
-                                found_compatible = True
-                        if not found_compatible:
+                        bd = pre_stochastic.bond_descriptors[0]
+                        if (
+                            bd.descriptor != other_bd.descriptor
+                            or bd.descriptor_id != other_bd.descriptor_id
+                            or bd.bond_type != other_bd.bond_type
+                        ):
                             raise RuntimeError(
                                 f"Token {pre_token} only has incompatible bond descriptors with previous element {str(self._elements[-1])}."
                             )
